@@ -169,34 +169,7 @@ def check(prog, run):
                    "the encoder can print the string token %s, which Lexer.__next__ does not accept as one String token: printing a "
                    "tree holding that character produces text the parser rejects" % shown.encode("unicode_escape").decode())
 
-    # ---- E2 block string guards
-    r = run.rule("E2", "_block_string: every subscript of the value is dominated by a non-emptiness test, and the "
-                       "single-line form is not chosen when the text ends in a backslash or a quote without a guard", 2)
-    bs = prog.get_func(PRINTER, "_block_string")
-    run.looked_at(bs)
-    param = bs.params[0]
-    for n in own_nodes(bs.node):
-        if isinstance(n, ast.Subscript) and isinstance(n.value, ast.Name) and n.value.id == param and not isinstance(n.slice, ast.Slice):
-            r.instance("subscript %s in `%s`" % (ast.unparse(n), norm_stmt(n)))
-            if not _guarded_nonempty(n, param):
-                run.report(r, "%s:_block_string:unguarded-subscript(%s)" % (PRINTER, ast.unparse(n)), bs.where(n),
-                           "%s is evaluated without a preceding non-emptiness test: printing an empty block string raises "
-                           "IndexError" % ast.unparse(n), {"stmt": norm_stmt(n)})
-    # single-line returns
-    for n in own_nodes(bs.node):
-        if isinstance(n, ast.Return) and n.value is not None:
-            txt = ast.unparse(n.value)
-            if "\\n" in txt.split("%")[0]:
-                continue  # multi-line form: text is followed by a newline before the terminator
-            r.instance("single-line return `%s`" % norm_stmt(n))
-            tests = _endswith_tests_before(bs.node, n)
-            for ch, label in (('"', "quote"), ("\\", "backslash")):
-                if ch not in tests:
-                    run.report(r, "%s:_block_string:single-line-terminator(%s)" % (PRINTER, label), bs.where(n),
-                               'the single-line form concatenates the text directly with the closing """ but no test on a '
-                               "trailing %s precedes it: the printed text does not lex back to the same string" % label)
-
-    check_indent(prog, run, "I1")
+    check_block_string_terminator(prog, run, "E2")
 
     # ---- D4 omission decisions never look at string content
     r = run.rule("D4", "the printer decides whether to emit a slot from the slot itself (`is None`, list emptiness), never from "
@@ -588,3 +561,35 @@ def check_verbatim_literals(prog, run, rule_id):
             run.report(r, "%s:ASTPrinter.%s:not-verbatim" % (PRINTER, mname), m.where(),
                        "%s returns %s instead of the literal's own text `%s.value`: the printed token is re-spelled and does not read back "
                        "as the same node" % (mname, sorted(vals), ps[0]))
+
+
+
+def check_block_string_terminator(prog, run, rule_id="E2"):
+    # ---- E2 block string guards
+    r = run.rule(rule_id, "_block_string: every subscript of the value is dominated by a non-emptiness test, and the "
+                       "single-line form is not chosen when the text ends in a backslash or a quote without a guard", 2)
+    bs = prog.get_func(PRINTER, "_block_string")
+    run.looked_at(bs)
+    param = bs.params[0]
+    for n in own_nodes(bs.node):
+        if isinstance(n, ast.Subscript) and isinstance(n.value, ast.Name) and n.value.id == param and not isinstance(n.slice, ast.Slice):
+            r.instance("subscript %s in `%s`" % (ast.unparse(n), norm_stmt(n)))
+            if not _guarded_nonempty(n, param):
+                run.report(r, "%s:_block_string:unguarded-subscript(%s)" % (PRINTER, ast.unparse(n)), bs.where(n),
+                           "%s is evaluated without a preceding non-emptiness test: printing an empty block string raises "
+                           "IndexError" % ast.unparse(n), {"stmt": norm_stmt(n)})
+    # single-line returns
+    for n in own_nodes(bs.node):
+        if isinstance(n, ast.Return) and n.value is not None:
+            txt = ast.unparse(n.value)
+            if "\\n" in txt.split("%")[0]:
+                continue  # multi-line form: text is followed by a newline before the terminator
+            r.instance("single-line return `%s`" % norm_stmt(n))
+            tests = _endswith_tests_before(bs.node, n)
+            for ch, label in (('"', "quote"), ("\\", "backslash")):
+                if ch not in tests:
+                    run.report(r, "%s:_block_string:single-line-terminator(%s)" % (PRINTER, label), bs.where(n),
+                               'the single-line form concatenates the text directly with the closing """ but no test on a '
+                               "trailing %s precedes it: the printed text does not lex back to the same string" % label)
+
+    check_indent(prog, run, "I1")
